@@ -25,7 +25,7 @@ BOUNDS = {
     "schema_validate": "~5000 schemas from a pool of 13 components (lists up to length 2 per section, plus all orders of major/minor/patch with and without literals in between)",
     "semver_parts": "5 SemVer and 5 PEP 440 sample versions",
     "pep440_display": "5 SemVer and 5 PEP 440 sample versions",
-    "resolve_barrier": "15 texts (incl. non-ASCII, fullwidth, whitespace) x 19 variables x 2 presets",
+    "resolve_barrier": "25 texts (incl. 2-, 3- and 4-byte characters straddling the short-hash cut at every offset, non-ASCII, fullwidth, whitespace) x 19 variables x 2 presets",
     "sanitize_uint_claim": "see sanitize",
     "semver_from_zerv": "valid schemas from 11 core (incl. literals that only sanitise to digits, signed or padded numbers, custom variables) x 5 extra-core x 3 build lists mixing var / str / uint components, incl. values that split into several identifiers, sanitise to nothing, or overflow u32) x 324 variable assignments; SemVer::from(Zerv).to_string() against an oracle written from the statement",
     "pep440_from_zerv": "the same 119 schemas x 324 assignments; PEP440::from(Zerv).to_string() against an oracle written from the statement",
